@@ -63,7 +63,8 @@ def join(a: V | None, b: V | None) -> V | None:
         return a
     kind = a.kind if a.kind == b.kind else "?"
     elem = None
-    if a.elem is not None or b.elem is not None:
+    if (a.elem is not None or b.elem is not None) and "T" not in (a.kind, b.kind):
+        # (a tensor is its own element - a view of the same storage: there is nothing to descend into)
         elem = join(elem_of(a), elem_of(b))
     attrs = None
     if a.attrs is not None or b.attrs is not None:
